@@ -23,6 +23,7 @@ structure Rule where
 
 structure Cfg where
   oidc : Bool                         -- OIDC token endpoint (replay revokes; id_token minted)
+  jwt : Bool                          -- access/refresh tokens are JWTs (their own `exp` is verified when resolving)
   rule : Cls → Rule                   -- grant usage rules (authz configuration)
   revokeRefreshOnIssue : Bool
   allowed : Str → List Str            -- client ↦ allowed_scopes (default: the provider's scope list)
@@ -209,14 +210,18 @@ def setMints (s : St) (id : Option Nat) (m : List Cls) : St :=
 def revokeIf (s : St) (c : Bool) (id : Nat) : St :=
   if c then { s with toks := updTok s.toks id (fun x => { x with revoked := true }) } else s
 
+/-- `create_session` + `AuthzHandling.__call__`: the grant records the request scope filtered by
+    the client's allowed scopes -/
+def mkGrant (cfg : Cfg) (s : St) (user client : Str) (scope : List Str) (redirect : Option Str) : Gr :=
+  { id := s.next, user := user, client := client, revoked := false,
+    exp := if cfg.grantExpiresIn = 0 then 0 else s.now + cfg.grantExpiresIn,
+    scope := filterScopes cfg client scope, openid := scope.contains (Wire.lit "openid"), redirect := redirect,
+    authnUntil := s.now + cfg.authnExpiresIn }
+
 def step (cfg : Cfg) (s : St) : Op → St × Out
   | .tick n => ({ s with now := s.now + n }, .ok)
   | .authorize user client scope redirect =>
-    let gsc := filterScopes cfg client scope
-    let g : Gr := { id := s.next, user := user, client := client, revoked := false,
-                    exp := if cfg.grantExpiresIn = 0 then 0 else s.now + cfg.grantExpiresIn,
-                    scope := gsc, openid := scope.contains (Wire.lit "openid"), redirect := redirect,
-                    authnUntil := s.now + cfg.authnExpiresIn }
+    let g := mkGrant cfg s user client scope redirect
     let s1 : St := { s with next := s.next + 1, grants := s.grants ++ [g] }
     match mint cfg s1 g .code none none with
     | .ok s2 c => (s2, .code c g.id)
@@ -314,6 +319,8 @@ def step (cfg : Cfg) (s : St) : Op → St × Out
       match findGr s t.gid with
       | none => (s, .ok)
       | some g =>
+        -- an expired JWT does not even resolve (signature/exp verification raises): nothing happens
+        if cfg.jwt ∧ (t.cls = .access ∨ t.cls = .refresh) ∧ t.exp ≠ 0 ∧ t.exp < s.now then (s, .err "unresolvable") else
         if g.client ≠ client then (s, .err "wrong_client") else
         if t.cls = .idtoken then (s, .err "unsupported_token_type") else
         ({ s with toks := updTok s.toks tok (fun x => { x with revoked := true }) }, .ok)
